@@ -1868,3 +1868,178 @@ func ruleR14_8(r *Run) {
 		r.check(has, "downres.Mutation.Abort:clears-updating-marks", "Abort calls StopScaleUpdate", "Abort no longer clears the updating marks", w.fpos(ab))
 	}
 }
+
+func init() {
+	register(ruleDef{ID: "R5.6", Prop: "C05", Tier: "quick", Floor: 10,
+		Title: "range bounds address one key class: wherever a range call's begin is MinTKey(c) and its end MaxTKey(c'), c and c' are the same class (otherwise the range is empty or spans foreign keys)",
+		Fn:    ruleRangeClass})
+	register(ruleDef{ID: "R13.9", Prop: "C13", Tier: "quick", Floor: 10,
+		Title: "index rebuilds clear the class they rebuild (shared with R5.6): the delete ranges of the tag and label indexes run from MinTKey to MaxTKey of one and the same key class",
+		Fn:    ruleRangeClass})
+}
+
+func ruleRangeClass(r *Run) {
+	w := r.W
+	classOf := func(v ssa.Value, f *ssa.Function, which string) (string, bool) {
+		for _, rt := range roots(v, f) {
+			c, ok := rt.V.(*ssa.Call)
+			if !ok {
+				continue
+			}
+			if cal := c.Call.StaticCallee(); cal != nil && cal.Name() == which && relPkg(pkgPathOf(cal)) == "storage" {
+				a := stripConv(c.Call.Args[0])
+				switch x := a.(type) {
+				case *ssa.Const:
+					return "const:" + x.Value.String(), true
+				case *ssa.UnOp:
+					if g, ok := x.X.(*ssa.Global); ok {
+						return "global:" + g.Name(), true
+					}
+				}
+				return "expr:" + a.Name(), true
+			}
+		}
+		return "", false
+	}
+	n := 0
+	for _, f := range w.RepoFuncs {
+		if len(f.Blocks) == 0 || strings.HasSuffix(w.fposFile(f), "_test.go") || !strings.HasPrefix(relPkg(pkgPathOf(f)), "datatype/") {
+			continue
+		}
+		k := 0
+		for _, c := range calls(f) {
+			args := c.Common().Args
+			var mins, maxs []string
+			for _, a := range args {
+				if !typeIs(a.Type(), "storage", "TKey") {
+					continue
+				}
+				if cl, ok := classOf(a, f, "MinTKey"); ok {
+					mins = append(mins, cl)
+				}
+				if cl, ok := classOf(a, f, "MaxTKey"); ok {
+					maxs = append(maxs, cl)
+				}
+			}
+			if len(mins) == 0 || len(maxs) == 0 {
+				continue
+			}
+			n++
+			k++
+			ok := true
+			for _, a := range mins {
+				for _, b := range maxs {
+					if a != b {
+						ok = false
+					}
+				}
+			}
+			r.check(ok, fmt.Sprintf("%s:range#%d:one-key-class", fname(f), k), "begin and end of the range are Min/MaxTKey of the same class",
+				fmt.Sprintf("a range runs from MinTKey(%v) to MaxTKey(%v): bounds of different key classes make the range empty (nothing is deleted / returned) or make it cover another class's keys", mins, maxs), w.pos(c.Pos()))
+		}
+	}
+	r.check(n >= 10, "repo:min-max-class-ranges", fmt.Sprintf("%d ranges bounded by MinTKey/MaxTKey examined", n), "too few such ranges: rule needs review", "-")
+}
+
+func init() {
+	register(ruleDef{ID: "R18.7", Prop: "C18", Tier: "quick", Floor: 3,
+		Title: "clipping keeps the inside: in every FitToBounds a removal is made only for elements the bounds test reports as outside, and a copy that is meant to return everything has a destination long enough to receive it",
+		Fn:    ruleR18_7})
+	register(ruleDef{ID: "R8.11", Prop: "C08", Tier: "quick", Floor: 3,
+		Title: "bounded label index (shared with R18.7): fitting a label index to block bounds removes the blocks outside the bounds, not the ones inside",
+		Fn:    ruleR18_7})
+}
+
+func ruleR18_7(r *Run) {
+	w := r.W
+	n := 0
+	for _, f := range w.RepoFuncs {
+		if len(f.Blocks) == 0 || f.Parent() != nil || f.Name() != "FitToBounds" || strings.HasSuffix(w.fposFile(f), "_test.go") {
+			continue
+		}
+		// (a) deletes only on the outside edge
+		var outsideIfs []*ssa.If
+		for _, b := range f.Blocks {
+			ifi, ok := b.Instrs[len(b.Instrs)-1].(*ssa.If)
+			if !ok {
+				continue
+			}
+			if c, ok := ifi.Cond.(*ssa.Call); ok && strings.HasPrefix(callName(c), "Outside") {
+				outsideIfs = append(outsideIfs, ifi)
+			}
+		}
+		for _, c := range calls(f) {
+			bi, ok := c.Common().Value.(*ssa.Builtin)
+			if !ok || bi.Name() != "delete" {
+				continue
+			}
+			n++
+			okDel := false
+			for _, ifi := range outsideIfs {
+				if guardedByEdge(ifi, 0, c) {
+					okDel = true
+				}
+			}
+			r.check(okDel, fname(f)+":removes-only-outside", "the removal is on the 'outside the bounds' edge of the bounds test",
+				"FitToBounds removes an element that the bounds test did not report as outside (the test is inverted or bypassed): the result keeps what lies outside the bounds and drops what lies inside", w.pos(c.Pos()))
+		}
+		// (b) copy destinations are not zero-length
+		for _, c := range calls(f) {
+			bi, ok := c.Common().Value.(*ssa.Builtin)
+			if !ok || bi.Name() != "copy" {
+				continue
+			}
+			n++
+			zero := false
+			for _, rt := range roots(c.Common().Args[0], f) {
+				if mk, ok := rt.V.(*ssa.MakeSlice); ok {
+					if k, isK := constInt(mk.Len); isK && k == 0 {
+						zero = true
+					}
+				}
+			}
+			r.check(!zero, fname(f)+":copy-destination-has-length", "the copy's destination was made with a length",
+				"copy() into a slice made with length 0 copies nothing: with no bounds given FitToBounds returns an empty set instead of everything", w.pos(c.Pos()))
+		}
+		// (c) a break out of a map iteration cannot be an early-exit optimisation (map order is random)
+		for _, b := range f.Blocks {
+			for _, in := range b.Instrs {
+				nx, ok := in.(*ssa.Next)
+				if !ok || nx.IsString {
+					continue
+				}
+				rg, ok := nx.Iter.(*ssa.Range)
+				if !ok {
+					continue
+				}
+				if _, isMap := rg.X.Type().Underlying().(*types.Map); !isMap {
+					continue
+				}
+				// loop body = blocks that can reach the Next again; an edge from the body to outside the loop
+				// other than the Next's own exit is a break
+				hdr := nx.Block()
+				n++
+				hasBreak := false
+				for _, b2 := range f.Blocks {
+					if b2 == hdr || !blockReaches(hdr, b2) || !blockReaches(b2, hdr) {
+						continue
+					}
+					for _, s := range b2.Succs {
+						if s != hdr && !blockReaches(s, hdr) {
+							if _, isRet := s.Instrs[len(s.Instrs)-1].(*ssa.Return); isRet && len(s.Instrs) <= 2 {
+								// an error return is not an optimisation break
+								if ret := s.Instrs[len(s.Instrs)-1].(*ssa.Return); isErrorExit(ret) {
+									continue
+								}
+							}
+							hasBreak = true
+						}
+					}
+				}
+				r.check(!hasBreak, fname(f)+":no-early-break-from-map-iteration", "the map iteration visits every element",
+					"FitToBounds breaks out of an iteration over a map as if the keys came in order: elements after the break are never examined", w.pos(nx.Pos()))
+			}
+		}
+	}
+	r.check(n >= 3, "repo:FitToBounds-implementations", fmt.Sprintf("%d clip sites examined", n), "FitToBounds implementations not found", "-")
+}
